@@ -107,6 +107,9 @@ def signature(f):
     if f.get("deviation"):
         return "C01:" + f["deviation"]
     C = f["case"]["C"]
+    if f["fam"] == "tappath":       # one rule: the tapscript digest commits to the true tapleaf hash, whatever the Merkle path
+        m = re.search(r"<<(\d+), (-?\d+)>>", f.get("tag") or "")
+        return "C01:tappath:%s>%s:%s" % (f["want"], f["got"], "merkle-path" if m and int(m.group(1)) > 0 else "single-leaf")
     if f["kind"] == "set":          # hand-written probe: the tag names the rule
         return "C01:%s:%s:%s>%s:%s" % (f["fam"], f["w"], f["want"], f["got"], f.get("tag"))
     # enumerated program: group by spend type, direction and the non-push opcodes of the locked script
